@@ -338,6 +338,21 @@ def ln_return(F, R):
             why = 'reports %s, expected ln(x_t / x_(t-1))' % tstr(leaf)[:70]
         else:
             n_some += 1
+    # every constructor (Default impls included) starts from the zero sentinel that last() treats as "no previous value": with any
+    # other start the first report would be ln(x_1 / start), not a log return of two delivered values
+    m_ = model(F, v)
+    bad_init = []
+    for mm in m_.ctor_models:
+        if mm['init'] is None:
+            bad_init.append('%s(): initial state not readable' % mm['fn'].name)
+            continue
+        for cell, t0 in mm['init'].items():
+            if cell in m_.touched and isinstance(t0, tuple) and t0 and t0[0] == 'lit' and len(t0) > 2 and t0[2] == 'f' and t0[1] != 0.0:
+                bad_init.append('%s(): register `%s` starts at %s, not at the zero sentinel' % (mm['fn'].name, cell, t0[1]))
+            elif cell in m_.touched and isinstance(t0, tuple) and t0 and t0[0] not in ('lit', 'none', 'seq_new', 'seq_rep', 'seq_lit'):
+                bad_init.append('%s(): register `%s` starts at %s' % (mm['fn'].name, cell, tstr(t0)[:40]))
+    R.ob('LR-init', 'LnReturn', not bad_init, 'every constructor starts the two registers at the zero sentinel (nothing is reported before two delivered values)'
+         if not bad_init else bad_init[0], v.file)
     R.ob('LR-compose', 'LnReturn', ok and n_some > 0, 'update(x1); update(x2); last() = Some(ln(x2/x1)) from any prior state (x1 != 0)' if ok and n_some else (why or 'never Some'), v.file)
 
 
